@@ -97,9 +97,17 @@ def cli_leg(ctx, n):
                 nbformat.validate(nbformat.read(out, as_version=nbformat.NO_CONVERT))
             except Exception as e:
                 m = json.load(open(out))
-                ctx.violation('the file written by nbmerge fails nbformat validation: %s' % str(e)[:150],
-                              {'kind': 'invalid', 'b': enc(b), 'l': enc(l), 'r': enc(r), 'strategy': a.key(), 'merged': enc(plain(nbformat.read(out, as_version=4))),
-                               'minor': m.get('nbformat_minor'), 'minors': [x['nbformat_minor'] for x in (b, l, r)], 'leg': 'cli'})
+                mm = plain(nbformat.read(out, as_version=nbformat.NO_CONVERT))
+                minors = [x['nbformat_minor'] for x in (b, l, r)]
+                repaired, tags = repair_known(mm, minors)
+                data = {'kind': 'invalid', 'b': enc(b), 'l': enc(l), 'r': enc(r), 'strategy': a.key(), 'merged': enc(mm), 'minor': m.get('nbformat_minor'),
+                        'minors': minors, 'leg': 'cli', 'repairs': tags, 'residual_valid': bool(tags) and not gen_nb.schema_errors(repaired)}
+                what = 'the file written by nbmerge fails nbformat validation: %s' % str(e)[:150]
+                if data['residual_valid']:
+                    for tag in tags:
+                        ctx.violation(what, dict(data, repairs=[tag]))
+                else:
+                    ctx.violation(what, data)
 
 
 def run(ctx):
